@@ -118,19 +118,39 @@ def patByte (tag i : Nat) : UInt8 := UInt8.ofNat ((tag * 131 + i + i / 251) % 25
 
 def pat (tag len : Nat) : Bytes := (List.range len).map (patByte tag)
 
-/-- A frame of the correspondence family whose body is produced on demand: header and query bytes,
-tag and body length. -/
+/-- A frame of the correspondence family, described instead of materialised: what `MessageBuilder`
+is given (id, notify flag, query; query format 1, body format 0, ec 0) plus the tag and length of the
+pattern body.  Its length needs no bytes; its bytes are produced on demand. -/
 structure LFrame where
-  hdrq : Bytes
+  id : Nat
+  notify : Bool
+  query : Bytes
   tag : Nat
   blen : Nat
 
-def LFrame.len (f : LFrame) : Nat := f.hdrq.length + f.blen
-def LFrame.bytes (f : LFrame) : Bytes := f.hdrq ++ pat f.tag f.blen
+def LFrame.len (f : LFrame) : Nat := 48 + f.query.length + f.blen
 
-/-- The frame `MessageBuilder` would build for (id, notify, query, body = pattern). -/
-def LFrame.of (id : Nat) (notify : Bool) (query : Bytes) (tag blen : Nat) : LFrame :=
-  let h := ((Builder.mk id notify 0 1 0 query []).build.header).patchLengths query.length blen
-  { hdrq := h.encode ++ query, tag := tag, blen := blen }
+def LFrame.header (f : LFrame) : Header :=
+  ((Builder.mk f.id f.notify 0 1 0 f.query []).build.header).patchLengths f.query.length f.blen
+
+def LFrame.bytes (f : LFrame) : Bytes := f.header.encode ++ f.query ++ pat f.tag f.blen
+
+/-- The message `MessageBuilder::build` produces for this description. -/
+def LFrame.message (f : LFrame) : Message :=
+  (Builder.mk f.id f.notify 0 1 0 f.query (pat f.tag f.blen)).build
+
+/-! ### changing the representation of frames (used to relate the driver's run to the theorems') -/
+
+def Seg.map {F G : Type} (g : F → G) (s : Seg F) : Seg G := ⟨g s.m, s.off, s.n⟩
+
+def Conn.map {F G : Type} (g : F → G) (c : Conn F) : Conn G :=
+  { segs := c.segs.map (Seg.map g)
+    cur := fun w => (c.cur w).map fun p => (g p.1, p.2)
+    lock := c.lock, failed := c.failed, done := c.done.map g }
+
+def Ev.map {F G : Type} (g : F → G) : Ev F → Ev G
+  | .submit w m => .submit w (g m)
+  | .progress w k => .progress w k
+  | .interrupt w => .interrupt w
 
 end Repe.WD
